@@ -324,7 +324,7 @@ func execSeg(a []string) string {
 		return "200 unknown-rep"
 	}
 	if vr.ContentType == "audio" && !vr.PreEncrypted {
-		return "audio-not-modelled-here"
+		return audioSegLine(res.body, va, vr)
 	}
 	rf := vodFiles(va, vr)
 	if vr.ContentType == "image" {
@@ -355,3 +355,57 @@ func init() {
 }
 
 var _ = http.StatusOK
+
+var audioFrameRe = regexp.MustCompile(`-a-frame-(\d+)$`)
+
+// audioSegLine prints number, decode time, frame count and (for generated assets, whose frames carry a counter)
+// the identity of every frame as ranges of global VoD frame indices.
+func audioSegLine(body []byte, va *app.VerifAsset, vr *app.VerifRep) string {
+	rf := vodFiles(va, vr)
+	f, err := mp4.DecodeFileSR(bits.NewFixedSliceReader(body))
+	if err != nil || len(f.Segments) == 0 || len(f.Segments[0].Fragments) == 0 {
+		return "200 unparsable"
+	}
+	var idx []int
+	n := 0
+	ident := strings.HasPrefix(va.AssetPath, "gen_")
+	fr0 := f.Segments[0].Fragments[0]
+	for _, seg := range f.Segments {
+		for _, fr := range seg.Fragments {
+			fss, err := fr.GetFullSamples(rf.trex)
+			if err != nil {
+				return "200 unparsable"
+			}
+			for _, s := range fss {
+				n++
+				if ident {
+					m := audioFrameRe.FindSubmatch(s.Data)
+					if m == nil {
+						idx = append(idx, -1)
+					} else {
+						v, _ := strconv.Atoi(string(m[1]))
+						idx = append(idx, v)
+					}
+				}
+			}
+		}
+	}
+	fs := "?"
+	if ident {
+		fs = rangesOf(idx)
+	}
+	return fmt.Sprintf("200 nr=%d tfdt=%d n=%d frames=%s", fr0.Moof.Mfhd.SequenceNumber, fr0.Moof.Traf.Tfdt.BaseMediaDecodeTime(), n, fs)
+}
+
+func rangesOf(l []int) string {
+	var parts []string
+	for i := 0; i < len(l); {
+		j := i
+		for j+1 < len(l) && l[j+1] == l[j]+1 {
+			j++
+		}
+		parts = append(parts, fmt.Sprintf("%d-%d", l[i], l[j]))
+		i = j + 1
+	}
+	return strings.Join(parts, ",")
+}
